@@ -5,10 +5,13 @@ pub mod consts;
 pub mod eddsa;
 pub mod edwards;
 pub mod field;
+pub mod group_ops;
 pub mod montgomery;
 pub mod ristretto;
 pub mod scalar;
 pub mod scalarmul;
+pub mod serde_ops;
+pub mod totality;
 pub mod vector;
 
 pub fn exec(req: &Req) -> Option<Resp> {
@@ -31,6 +34,12 @@ pub fn exec(req: &Req) -> Option<Resp> {
     if op.starts_with("sig.") {
         return eddsa::exec(op, &req.a);
     }
+    if op.starts_with("sd.") {
+        return serde_ops::exec(op, &req.a);
+    }
+    if op.starts_with("tot.") {
+        return totality::exec(op, &req.a);
+    }
     if op.starts_with("mt.") || op.starts_with("x.") {
         return montgomery::exec(op, &req.a);
     }
@@ -44,6 +53,18 @@ pub fn oracle(req: &Req, got: &Resp) -> Result<(), String> {
     }
     if req.op.starts_with("v2.") || req.op.starts_with("vi.") {
         return vector::oracle(req, got);
+    }
+    if req.op.starts_with("gp.") {
+        return group_ops::oracle(req, got);
+    }
+    if req.op == "sd.raw" {
+        return serde_ops::oracle_raw(req, got);
+    }
+    if req.op == "sm.recode" {
+        return scalarmul::recode_oracle(req, got);
+    }
+    if req.op == "ed.decompress_coords" || req.op == "ed.history_coords" {
+        return edwards::oracle_coords(req, got);
     }
     if req.op == "rs.elligator" {
         return ristretto::oracle_elligator(req, got);
